@@ -260,7 +260,7 @@ class CompositionMonitor(hist.Monitor):
 
 
 def n_cases(tier):
-    return 900 if tier == "quick" else 60000
+    return 800 if tier == "quick" else 35000
 
 
 def _rename(rng, d):
